@@ -472,6 +472,9 @@ func runC17(e *Env) {
 			}
 			cal := flow.Callee(call)
 			isHash := cal != nil && len(cal.Blocks) > 0 && len(callsTo(cal, "crypto/sha256", "New"))+len(callsTo(cal, "crypto/sha256", "Sum256")) > 0
+			if isHash {
+				checkWholeContentHash(e, p, cal)
+			}
 			if cal == fn || isHash || flow.CalleeIs(call, load.PkgDisasm, "ExtractSyscalls") {
 				nMain++
 				failEdgeNoReturn(e, p, "E3.maindisc", "main/"+calleeName(call), call)
@@ -481,6 +484,131 @@ func runC17(e *Env) {
 	r.Floor("E3.maindisc(fallible steps of the command)", nMain, 3)
 	// the hash function is deliberately not subject to E3.errbranch here: see the note above.
 	checkErrBranch(e, p, []*ssa.Function{fn, flow.Callee(rcall)}, "profiler cache")
+}
+
+// checkWholeContentHash (E3.fullhash …/whole-content): "complete for the exact binary" - everything that is fed into the
+// binary's hash is the whole content of the file named by the function's parameter: io.Copy (not CopyN, not a
+// LimitReader, not one Read) from a reader over os.Open(param), or a Write/Sum256 of the unsliced result of
+// os.ReadFile(param) / io.ReadAll(file). A hash over a prefix, or over the path, size and modification time, accepts a
+// cache that was written for another binary.
+func checkWholeContentHash(e *Env, p *load.Program, hb *ssa.Function) {
+	r := e.R
+	name := load.FuncName(hb)
+	strip := func(v ssa.Value) ssa.Value {
+		for i := 0; i < 8; i++ {
+			switch x := v.(type) {
+			case *ssa.MakeInterface:
+				v = x.X
+			case *ssa.ChangeInterface:
+				v = x.X
+			case *ssa.ChangeType:
+				v = x.X
+			case *ssa.Convert:
+				v = x.X
+			default:
+				return v
+			}
+		}
+		return v
+	}
+	isPathParam := func(v ssa.Value) bool {
+		v = strip(v)
+		for _, pr := range hb.Params {
+			if pr == v {
+				return true
+			}
+		}
+		return false
+	}
+	resultOf := func(v ssa.Value, pkg, fn string) *ssa.Call {
+		v = strip(v)
+		if ex, ok := v.(*ssa.Extract); ok && ex.Index == 0 {
+			v = ex.Tuple
+		}
+		if c, ok := v.(*ssa.Call); ok && flow.CalleeIs(c, pkg, fn) {
+			return c
+		}
+		return nil
+	}
+	// a reader over the whole file
+	var wholeFile func(v ssa.Value, depth int) bool
+	wholeFile = func(v ssa.Value, depth int) bool {
+		if depth > 4 {
+			return false
+		}
+		if c := resultOf(v, "os", "Open"); c != nil {
+			return len(c.Call.Args) == 1 && isPathParam(c.Call.Args[0])
+		}
+		for _, w := range [][2]string{{"bufio", "NewReader"}, {"bufio", "NewReaderSize"}} {
+			if c := resultOf(v, w[0], w[1]); c != nil && len(c.Call.Args) >= 1 {
+				return wholeFile(c.Call.Args[0], depth+1)
+			}
+		}
+		return false
+	}
+	wholeBytes := func(v ssa.Value) bool {
+		for _, w := range [][2]string{{"os", "ReadFile"}, {"io/ioutil", "ReadFile"}} {
+			if c := resultOf(v, w[0], w[1]); c != nil && len(c.Call.Args) == 1 {
+				return isPathParam(c.Call.Args[0])
+			}
+		}
+		for _, w := range [][2]string{{"io", "ReadAll"}, {"io/ioutil", "ReadAll"}} {
+			if c := resultOf(v, w[0], w[1]); c != nil && len(c.Call.Args) == 1 {
+				return wholeFile(c.Call.Args[0], 0)
+			}
+		}
+		return false
+	}
+	isHasher := func(v ssa.Value) bool {
+		v = strip(v)
+		c, ok := v.(*ssa.Call)
+		return ok && flow.CalleeIs(c, "crypto/sha256", "New")
+	}
+	good, n := true, 0
+	why := ""
+	for _, c := range flow.Calls(hb) {
+		call, ok := c.(*ssa.Call)
+		if !ok {
+			continue
+		}
+		com := call.Common()
+		switch {
+		case flow.CalleeIs(call, "crypto/sha256", "Sum256"):
+			n++
+			if !wholeBytes(com.Args[0]) {
+				good, why = false, "Sum256 of something other than the file's whole content"
+			}
+		case com.IsInvoke() && isHasher(com.Value) && (com.Method.Name() == "Write" || com.Method.Name() == "WriteString"):
+			n++
+			if len(com.Args) != 1 || !wholeBytes(com.Args[0]) {
+				good, why = false, "the hash is fed with something other than the file's whole content"
+			}
+		case com.IsInvoke() && isHasher(com.Value):
+			// Sum, Reset, Size: Reset between feeding and Sum would drop the content
+			if com.Method.Name() == "Reset" {
+				good, why = false, "the hash is reset"
+			}
+		default:
+			// the hash handed to a function as a writer
+			for ai, a := range com.Args {
+				if !isHasher(a) {
+					continue
+				}
+				n++
+				if flow.CalleeIs(call, "io", "Copy") && ai == 0 && len(com.Args) == 2 && wholeFile(com.Args[1], 0) {
+					continue
+				}
+				good, why = false, fmt.Sprintf("the hash is handed to %s, which is not io.Copy from a reader over the whole file", calleeName(call))
+			}
+		}
+	}
+	if n == 0 {
+		r.Unknown("E3.fullhash", name+"/whole-content", p.Pos(hb.Pos()), "how the binary's content reaches the hash was not recognised")
+		return
+	}
+	r.Check(good, "E3.fullhash", name+"/whole-content", p.Pos(hb.Pos()),
+		"the binary's hash covers the whole content of the file named by the parameter",
+		"the binary's hash does not cover exactly the whole file ("+why+"): a cache written for a different binary with the same hashed part is accepted as complete for this one")
 }
 
 func isRenameOf(c *ssa.Call, renames []*ssa.Call) bool {
